@@ -238,6 +238,12 @@ def corpus():
             yield space.to_desc(I, gates)
     for gates in space.circuits(2, 1, max_arity=2):
         yield space.to_desc(2, gates, outputs="all")
+    # feed-through ports only: every output is a primary input (a wrapper, a pass-through stage) - e.g. a miter of
+    # such a circuit has nothing left to compare once the inputs are tied
+    for k, gates in enumerate(space.circuits(2, 1, max_arity=2)):
+        if k % 4 == 0:
+            yield space.to_desc(2, gates, outputs=[0])
+            yield space.to_desc(2, gates, outputs=[0, 1])
 
 
 def producers():
